@@ -84,7 +84,7 @@ def main ():
     import numpy as np
     np.seterr (all = 'ignore')
     common.repo ()
-    instrument.install ()
+    instrument.install ()      # also routes numpy floating-point errors to the recorder
     mod = load (pid)
     gb = getattr (mod, 'MEM_LIMIT_GB', None)
     if gb:
